@@ -546,7 +546,10 @@ func (i *IniParser) parse(ini *ini) error {
 			}
 
 			// ini value is ignored if parsed as default but defaults are prevented
-			if i.ParseAsDefaults && opt.preventDefault {
+			// (unless they were prevented by an earlier entry of this same file)
+			_, setByThisFile := quotesLookup[opt]
+
+			if i.ParseAsDefaults && opt.preventDefault && !setByThisFile {
 				continue
 			}
 
@@ -582,6 +585,10 @@ func (i *IniParser) parse(ini *ini) error {
 			var err error
 
 			if i.ParseAsDefaults {
+				if setByThisFile {
+					opt.preventDefault = false
+				}
+
 				err = opt.setDefault(pval)
 			} else {
 				err = opt.Set(pval)
